@@ -100,6 +100,7 @@ impl Process for Limiter {
     closed spec fn eager(&self) -> bool { false }
     closed spec fn rejects(&self, titles: Seq<String>) -> bool { self.next.rejects(titles) }
     closed spec fn header(&self, titles: Seq<String>) -> Seq<char> { self.next.header(titles) }
+    closed spec fn sfut(&self, titles: Seq<String>, rows: Seq<Context>) -> Seq<char> { self.next.sfut(titles, window(self.skip_left(), self.take_left(), rows)) }
 
 //@@ fn limiter.complete = src/limits.rs :: impl Process for Limiter :: fn complete
 //@@ safety C08 C09 C03 C16 C20
@@ -135,6 +136,7 @@ impl Process for ActiveFilter {
     closed spec fn eager(&self) -> bool { false }
     closed spec fn rejects(&self, titles: Seq<String>) -> bool { self.next.rejects(titles) }
     closed spec fn header(&self, titles: Seq<String>) -> Seq<char> { self.next.header(titles) }
+    closed spec fn sfut(&self, titles: Seq<String>, rows: Seq<Context>) -> Seq<char> { self.next.sfut(titles, filter_rows(self.filter, rows)) }
 
 //@@ fn filter.complete = src/filter.rs :: impl Process for ActiveFilter :: fn complete
 //@@ safety C03 C16 C20
@@ -173,6 +175,7 @@ impl Process for SelectionProcess {
     closed spec fn eager(&self) -> bool { false }
     closed spec fn rejects(&self, titles: Seq<String>) -> bool { self.next.rejects(titles.push(*self.name)) }
     closed spec fn header(&self, titles: Seq<String>) -> Seq<char> { self.next.header(titles.push(*self.name)) }
+    closed spec fn sfut(&self, titles: Seq<String>, rows: Seq<Context>) -> Seq<char> { self.next.sfut(titles.push(*self.name), select_rows(self.getter, *self.name, rows)) }
 
 //@@ fn selection.start = src/selection.rs :: impl Process for SelectionProcess :: fn start
 //@@ safety C03 C18 C15
@@ -197,6 +200,7 @@ impl Process for PreSetProcessor {
     closed spec fn eager(&self) -> bool { false }
     closed spec fn rejects(&self, titles: Seq<String>) -> bool { self.next.rejects(titles) }
     closed spec fn header(&self, titles: Seq<String>) -> Seq<char> { self.next.header(titles) }
+    closed spec fn sfut(&self, titles: Seq<String>, rows: Seq<Context>) -> Seq<char> { self.next.sfut(titles, preset_rows(self.variables@, self.macros@, rows)) }
 
 //@@ fn preset.complete = src/pre_sets.rs :: impl Process for PreSetProcessor :: fn complete
 //@@ safety C03 C16 C20
@@ -263,6 +267,7 @@ impl Process for SplitterProcess {
     closed spec fn eager(&self) -> bool { false }
     closed spec fn rejects(&self, titles: Seq<String>) -> bool { self.next.rejects(titles) }
     closed spec fn header(&self, titles: Seq<String>) -> Seq<char> { self.next.header(titles) }
+    closed spec fn sfut(&self, titles: Seq<String>, rows: Seq<Context>) -> Seq<char> { self.next.sfut(titles, split_rows(self.split_by, rows)) }
 
 //@@ fn splitter.complete = src/splitter.rs :: impl Process for SplitterProcess :: fn complete
 //@@ safety C03 C16 C20
@@ -343,6 +348,7 @@ impl Process for Uniquness {
     closed spec fn eager(&self) -> bool { false }
     closed spec fn rejects(&self, titles: Seq<String>) -> bool { self.next.rejects(titles) }
     closed spec fn header(&self, titles: Seq<String>) -> Seq<char> { self.next.header(titles) }
+    closed spec fn sfut(&self, titles: Seq<String>, rows: Seq<Context>) -> Seq<char> { self.next.sfut(titles, uniq_rows(self.knwon_lines@, rows)) }
 
 //@@ fn uniq.complete = src/duplication_remover.rs :: impl Process for Uniquness :: fn complete
 //@@ safety C03 C16 C10 C20
@@ -384,6 +390,7 @@ impl Process for Merger {
     // --group-by / --merge reset the titles: the printer is started with none
     closed spec fn rejects(&self, titles: Seq<String>) -> bool { self.next.rejects(Seq::empty()) }
     closed spec fn header(&self, titles: Seq<String>) -> Seq<char> { self.next.header(Seq::empty()) }
+    closed spec fn sfut(&self, titles: Seq<String>, rows: Seq<Context>) -> Seq<char> { self.next.sfut(Seq::empty(), seq![merged_row(self.data@, rows)]) }
 
 //@@ fn merger.complete = src/merger.rs :: impl Process for Merger :: fn complete
 //@@ safety C09 C03 C16 C20
@@ -450,6 +457,7 @@ impl Process for GrouperProcess {
     // --group-by / --merge reset the titles: the printer is started with none
     closed spec fn rejects(&self, titles: Seq<String>) -> bool { self.next.rejects(Seq::empty()) }
     closed spec fn header(&self, titles: Seq<String>) -> Seq<char> { self.next.header(Seq::empty()) }
+    closed spec fn sfut(&self, titles: Seq<String>, rows: Seq<Context>) -> Seq<char> { self.next.sfut(Seq::empty(), seq![grouped_row(self.group_by, self.groups(), rows)]) }
 
 //@@ fn grouper.complete = src/grouper.rs :: impl Process for GrouperProcess :: fn complete
 //@@ safety C09 C03 C16 C20
@@ -548,6 +556,9 @@ impl Process for SortProcess {
     closed spec fn eager(&self) -> bool { false }
     closed spec fn rejects(&self, titles: Seq<String>) -> bool { self.next.rejects(titles) }
     closed spec fn header(&self, titles: Seq<String>) -> Seq<char> { self.next.header(titles) }
+    closed spec fn sfut(&self, titles: Seq<String>, rows: Seq<Context>) -> Seq<char> {
+        self.next.sfut(titles, emit(self.is_asc(), sort_all(self.sort_by, self.is_asc(), self.bk(), cap_of(self.space_left), rows)))
+    }
 
 //@@ fn sorter.start = src/sorters.rs :: impl Process for SortProcess :: fn start
 //@@ safety C03 C18 C15
